@@ -3,11 +3,14 @@ package main
 
 import (
 	"bytes"
+	"context"
 	"fmt"
 	"math/rand"
 	"runtime"
 	"strconv"
 	"strings"
+	"sync"
+	"time"
 
 	"github.com/b2broker/simplefix-go/fix"
 	"github.com/b2broker/simplefix-go/fix/encoding"
@@ -15,6 +18,9 @@ import (
 	"verifharness/fixref"
 	"verifharness/gen"
 	"verifharness/vk"
+	"verifharness/wire"
+
+	simplefixgo "github.com/b2broker/simplefix-go"
 )
 
 var roles = []string{"plain", "group-count", "group-first", "msgtype", "seqnum", "checksum", "bodylength", "entry-inner"}
@@ -245,7 +251,7 @@ func lookup(wire []byte, tag string) (v []byte, err error, pan string) {
 
 func main() {
 	c := vk.Init("C18")
-	c.Rule("targeted decoys: for a tag t in each role {plain field, group count, first field of a group, inner entry field, MsgType, MsgSeqNum, CheckSum, BodyLength} x placement {text 't=' inside another field's value before / after / both sides of the genuine field, extra fields whose tag has t as proper decimal suffix or prefix before / after, both} x genuine field or group present / absent: the message is built by the harness's own encoder (correct framing), then parsed (strict and non-strict) into the library template and every tag of the message plus t is looked up with ValueByTag; expected results come from the construction. distinct = hash(wire); non-trivial = all (every case carries a decoy)")
+	c.Rule("targeted decoys: for a tag t in each role {plain field, group count, first field of a group, inner entry field, MsgType, MsgSeqNum, CheckSum, BodyLength} x placement {text 't=' inside another field's value before / after / both sides of the genuine field, extra fields whose tag has t as proper decimal suffix or prefix before / after, both} x genuine field or group present / absent: the message is built by the harness's own encoder (correct framing), then parsed (strict and non-strict) into the library template and every tag of the message plus t is looked up with ValueByTag; expected results come from the construction. Plus connection framing: messages whose values contain the text '10=' at 30 chosen offsets (incl. around multiples of 4096) and fields 110/210/1010 are streamed through a real Conn and must be delivered with the boundaries the reference splitter gives. distinct = hash(wire); non-trivial = all (every case carries a decoy)")
 	c.Assume("messages are well-formed: BeginString first, correct BodyLength/CheckSum, one template position per tag, foreign (related-tag) fields only at top level")
 	reps := c.Pick(60, 5000)
 	type combo struct {
@@ -345,7 +351,105 @@ func main() {
 			c.Sample(map[string]interface{}{"cell": cell, "target_tag": tc.target, "wire": vk.Trunc(fixref.Pretty(tc.wire), 400)})
 		}
 	})
+	connFraming(c)
 	c.Finish()
+}
+
+// recorder is a minimal InitiatorHandler that records what the connection delivers.
+type recorder struct {
+	mu   sync.Mutex
+	got  [][]byte
+	out  chan []byte
+	ctx  context.Context
+	stop context.CancelFunc
+	errs chan error
+}
+
+func (h *recorder) ServeIncoming(msg []byte) {
+	h.mu.Lock()
+	h.got = append(h.got, append([]byte(nil), msg...))
+	h.mu.Unlock()
+}
+func (h *recorder) Outgoing() <-chan []byte { return h.out }
+func (h *recorder) Run() error {
+	select {
+	case <-h.ctx.Done():
+		return nil
+	case err := <-h.errs:
+		return err
+	}
+}
+func (h *recorder) StopWithError(err error) {
+	select {
+	case h.errs <- err:
+	default:
+	}
+}
+func (h *recorder) CloseErrorChan()                         {}
+func (h *recorder) Send(m simplefixgo.SendingMessage) error { return nil }
+func (h *recorder) Context() context.Context                { return h.ctx }
+func (h *recorder) Stop()                                   { h.stop() }
+
+// connFraming: end-of-message detection must recognise the CheckSum tag only at a field start.
+// Messages whose values contain the text "10=" (and fields 110/210/1010) at chosen offsets — including
+// offsets around multiples of the reader's buffer size — are streamed through a real Conn/Initiator.
+func connFraming(c *vk.Ctx) {
+	offsets := []int{0, 1, 2, 3, 7, 100, 1000, 4000, 4089, 4090, 4091, 4092, 4093, 4094, 4095, 4096, 4097, 4098, 8185, 8186, 8187, 8188, 8189, 8190, 8191, 8192, 8193, 12285, 12286, 12287}
+	vk.Parallel(len(offsets), runtime.NumCPU(), func(i int) {
+		off := offsets[i]
+		var sent [][]byte
+		for k := 0; k < 3; k++ {
+			val := strings.Repeat("x", off) + "10=12" + strconv.Itoa(k) + " tail"
+			sent = append(sent, fixref.Encode(fixref.Std, "FIX.4.4", "D", []fixref.Field{fixref.F("110", "7"), fixref.F("58", val), fixref.F("1010", "10=999"), fixref.F("210", "x")}))
+			sent = append(sent, fixref.Encode(fixref.Std, "FIX.4.4", "0", []fixref.Field{fixref.F("112", "10=")}))
+		}
+		conn := wire.NewConn("c18", false)
+		h := &recorder{out: make(chan []byte), errs: make(chan error, 2)}
+		h.ctx, h.stop = context.WithCancel(context.Background())
+		ini := simplefixgo.NewInitiator(conn, h, 0, time.Second)
+		done := make(chan struct{})
+		go func() { ini.Serve(); close(done) }()
+		for _, m := range sent {
+			conn.Feed(m)
+		}
+		deadline := time.Now().Add(5 * time.Second)
+		for time.Now().Before(deadline) {
+			h.mu.Lock()
+			n := len(h.got)
+			h.mu.Unlock()
+			if n >= len(sent) {
+				break
+			}
+			if closed, at := conn.Closed(); closed && time.Since(at) > 200*time.Millisecond {
+				break
+			}
+			time.Sleep(2 * time.Millisecond)
+		}
+		time.Sleep(5 * time.Millisecond)
+		h.mu.Lock()
+		got := append([][]byte(nil), h.got...)
+		h.mu.Unlock()
+		ini.Close()
+		h.Stop()
+		<-done
+		c.Eval(vk.Hash64([]byte("conn-framing"), []byte(strconv.Itoa(off))), true)
+		c.Count("conn_framing_streams", 1)
+		c.SetAdd("cells", "checksum/conn-end-of-message/text-in-value")
+		bad := len(got) != len(sent)
+		for k := 0; !bad && k < len(sent); k++ {
+			bad = !bytes.Equal(got[k], sent[k])
+		}
+		if bad {
+			first := ""
+			for k := 0; k < len(got) && k < len(sent); k++ {
+				if !bytes.Equal(got[k], sent[k]) {
+					first = fmt.Sprintf("message #%d delivered as %s", k, vk.Trunc(fixref.Pretty(got[k]), 200))
+					break
+				}
+			}
+			c.Violate("C18/conn-end-of-message/text-10=-inside-a-value", fmt.Sprintf("a value containing the text '10=' at offset %d of a field: the connection delivered %d messages for %d sent; %s", off, len(got), len(sent), first), map[string]interface{}{"offset_in_value": off})
+		}
+	})
 }
 
 func kind(placement string) string {
